@@ -83,6 +83,10 @@ struct Case {
     /// how the kill point is addressed to strace, whose injection counters are PER SYSCALL: (syscall name, its k-th invocation)
     #[serde(default)]
     kill_call: Option<(String, u32)>,
+    /// the key directory also holds that many complete key files of earlier re-keys (low 4 bits); bit 4: their names sort
+    /// after every key the host issues (otherwise before)
+    #[serde(default)]
+    store_history: u8,
 }
 
 struct Env {
@@ -211,6 +215,14 @@ fn prepare(env: &Env, c: &Case, key_dir: &Path) -> Result<(), String> {
             }
         }
     }
+    if c.store_history & 15 != 0 && c.scenario != Scenario::StoreBlockedFirst {
+        // key files of earlier re-keys, complete and valid, which nobody refers to any more
+        for i in 0..(c.store_history & 15) {
+            let g = if c.store_history & 16 != 0 { format!("ffffffff-ffff-4fff-bfff-fffffffffff{:x}", i) } else { format!("00000000-0000-4000-8000-00000000000{:x}", i) };
+            let doc = serde_json::json!({"authorizationScheme": "Azure-HMAC-SHA256", "guid": g, "issued": "2020-01-01T00:00:00Z", "key": format!("{:064X}", 0x1000u64 + i as u64)});
+            std::fs::write(key_dir.join(format!("{}.key", g)), serde_json::to_vec_pretty(&doc).unwrap()).map_err(|e| e.to_string())?;
+        }
+    }
     env.host.with(|s| {
         s.counters = Default::default();
         s.signature_failures.clear();
@@ -272,7 +284,7 @@ fn experiment(env: &Env, c: &Case, stats: &mut Stats) -> Result<(bool, String), 
     let damaged = matches!(c.scenario, Scenario::LocalKeyTruncated | Scenario::LocalKeyGarbage | Scenario::LocalKeyWrongGuidInside | Scenario::LocalKeyEmpty);
     // the scenario's pre-existing damaged file is not the agent's doing: judge only files the agent (re)wrote
     let pre_damaged: Option<(PathBuf, Vec<u8>)> = if damaged {
-        std::fs::read_dir(&key_dir).ok().and_then(|rd| rd.flatten().map(|e| e.path()).find(|p| p.extension().map(|x| x == "key").unwrap_or(false))).map(|p| (p.clone(), std::fs::read(&p).unwrap_or_default()))
+        env.host.with(|s| s.latched.clone()).map(|g| key_dir.join(format!("{}.key", g))).filter(|p| p.exists()).map(|p| (p.clone(), std::fs::read(&p).unwrap_or_default()))
     } else {
         None
     };
@@ -386,7 +398,7 @@ fn main() {
         // C12, last clause: the key directory is restricted before the first key file is created in it.
         // Syscall order of a fresh latch, read from the strace log of an uninjected run of the real key keeper.
         let mut n_runs = 0u64;
-        for round in 0..(if th { 12 } else { 3 }) {
+        for round in 0..(if th { 16 } else { 4 }) {
             let key_dir = env.work.join(format!("keys-order-{}", round));
             let _ = std::fs::remove_dir_all(&key_dir);
             // the directory does not exist yet in odd rounds, exists with open permissions in even rounds
@@ -397,10 +409,16 @@ fn main() {
             }
             reset_host(&env, &key_dir);
             // every third run: chown and chmod take 0.3 s each (the order of effects must not depend on that)
-            let slow = round % 3 == 2;
+            let slow = round % 4 == 2;
             if slow {
                 std::env::set_var("VERIF_STRACE_INJECT", "chown,chmod,fchmodat,fchownat,lchown:delay_enter=300000");
                 stats.class("order:slow-chown-and-chmod");
+            }
+            // every fourth run: changing the owner is refused (no CAP_CHOWN, a file system without ownership): the directory must
+            // be closed to group and others all the same before a key file appears in it
+            if round % 4 == 3 {
+                std::env::set_var("VERIF_STRACE_INJECT", "chown,fchownat,lchown,fchown:error=EPERM");
+                stats.class("order:chown-refused-with-EPERM");
             }
             let r = run_child(&env, &key_dir, None, "order");
             std::env::remove_var("VERIF_STRACE_INJECT");
@@ -454,7 +472,7 @@ fn main() {
         }
         let _ = n_runs;
         let _ = std::fs::remove_dir_all(&work);
-        stats.write_worker_files(&params.out, &params.prop, "syscall-order part: uninjected strace runs of the real key keeper on a key directory that does not exist yet / exists with mode 0777, every third run with chown/chmod slowed down to 0.3 s each by strace delay injection; oracle: chmod 0700 (and chown root) of the key directory precede the first O_CREAT inside it, and the directory ends with mode 0700 owner root.", &["strace sees every file-system call of the single-threaded key keeper child"], t0.elapsed().as_secs_f64());
+        stats.write_worker_files(&params.out, &params.prop, "syscall-order part: uninjected strace runs of the real key keeper on a key directory that does not exist yet / exists with mode 0777, every fourth run with chown/chmod slowed down to 0.3 s each by strace delay injection, every fourth run with every chown refused (EPERM, strace fault injection); oracle: chmod 0700 (and chown root) of the key directory precede the first O_CREAT inside it, and the directory ends with mode 0700 owner root.", &["strace sees every file-system call of the single-threaded key keeper child"], t0.elapsed().as_secs_f64());
         std::process::exit(0);
     }
     let scenarios = [Scenario::FreshLatch, Scenario::RestartWithKeyOnDisk, Scenario::Rotation, Scenario::LocalKeyTruncated, Scenario::LocalKeyGarbage, Scenario::LocalKeyWrongGuidInside, Scenario::LocalKeyEmpty, Scenario::StoreBlockedFirst];
@@ -473,20 +491,32 @@ fn main() {
         }
     } else {
         // (scenario, fault script) pairs: all scenarios fault-free; the fresh latch and the rotation with every single-fault script
-        let mut pairs: Vec<(Scenario, HostFaults)> = scenarios.iter().map(|s| (*s, HostFaults::None)).collect();
+        let mut pairs: Vec<(Scenario, HostFaults, u8)> = scenarios.iter().map(|s| (*s, HostFaults::None, 0u8)).collect();
         for f in &fault_scripts[1..] {
-            pairs.push((Scenario::FreshLatch, f.clone()));
+            pairs.push((Scenario::FreshLatch, f.clone(), 0));
             if th {
-                pairs.push((Scenario::Rotation, f.clone()));
-                pairs.push((Scenario::LocalKeyGarbage, f.clone()));
+                pairs.push((Scenario::Rotation, f.clone(), 0));
+                pairs.push((Scenario::LocalKeyGarbage, f.clone(), 0));
             }
         }
-        for (pi, (sc, f)) in pairs.iter().enumerate() {
+        // key directories with a history: files of earlier re-keys whose names sort before / after the keys of this run
+        let hist = |k: u64| -> u8 { 1 + (h64(&(params.seed, "history", k)) % 12) as u8 };
+        pairs.push((Scenario::FreshLatch, HostFaults::None, (5 + hist(1) % 8) | 16));
+        pairs.push((Scenario::Rotation, HostFaults::None, hist(2) | 16));
+        pairs.push((Scenario::RestartWithKeyOnDisk, HostFaults::None, hist(3) | 16));
+        pairs.push((Scenario::FreshLatch, HostFaults::None, 5 + hist(4) % 8));
+        if th {
+            for (k, sc) in scenarios.iter().enumerate() {
+                pairs.push((*sc, HostFaults::None, hist(10 + k as u64) | 16));
+                pairs.push((*sc, HostFaults::AttestLatchedReplyLost, hist(20 + k as u64)));
+            }
+        }
+        for (pi, (sc, f, history)) in pairs.iter().enumerate() {
             if pi as u32 % params.workers != params.worker {
                 continue;
             }
             // dry run under strace without injection: how many matching syscalls, and where the first status poll starts
-            let dry = Case { scenario: *sc, faults: f.clone(), kill_at: None, kill_call: None };
+            let dry = Case { scenario: *sc, faults: f.clone(), kill_at: None, kill_call: None, store_history: *history };
             let key_dir = env.work.join("keys");
             if let Err(e) = prepare(&env, &dry, &key_dir) {
                 stats.inconclusive.push(format!("{:?}/{:?}: {}", sc, f, e));
@@ -605,13 +635,16 @@ fn main() {
                         None => continue,
                     },
                 };
-                plan.push(Case { scenario: *sc, faults: f.clone(), kill_at: Some(n), kill_call: Some(call) });
+                plan.push(Case { scenario: *sc, faults: f.clone(), kill_at: Some(n), kill_call: Some(call), store_history: *history });
             }
         }
     }
     for c in &plan {
         stats.eval();
         stats.class(&format!("scenario:{:?}", c.scenario));
+        if c.store_history & 15 != 0 {
+            stats.class(if c.store_history & 15 >= 5 { "key-directory:holds->=5-files-of-earlier-re-keys" } else { "key-directory:holds-1-4-files-of-earlier-re-keys" });
+        }
         if c.faults != HostFaults::None {
             stats.class(&format!("host-faults:{:?}", c.faults));
         }
